@@ -118,6 +118,24 @@ func (w *c07World) extraOps() []explore.Op {
 				return k.people.Create(ctx, k.personRec("#p2", "C", []string{""}, nil, nil, nil))
 			},
 			Apply: func(m explore.Model) []string { return []string{"unusable-key", "exists"} }},
+		// rejected by input validation before anything is written
+		{Name: "create@people(<blank id>)",
+			Do:    func(ctx boltz.MutateContext) error { return k.people.Create(ctx, k.personRec("", "C", nil, nil, nil, nil)) },
+			Apply: func(m explore.Model) []string { return []string{"invalid"} }},
+		{Name: "create@people(<entity of another store's type>)",
+			Do: func(ctx boltz.MutateContext) error {
+				return k.people.Create(ctx, world.NewRec("orgs", "#p2").With("label", "L"))
+			},
+			Apply: func(m explore.Model) []string { return []string{"invalid"} }},
+		{Name: "create@people(<nil entity>)",
+			Do:    func(ctx boltz.MutateContext) error { var r *world.Rec; return k.people.Create(ctx, r) },
+			Apply: func(m explore.Model) []string { return []string{"invalid"} }},
+		{Name: "update@people(<blank id>)",
+			Do:    func(ctx boltz.MutateContext) error { return k.people.Update(ctx, k.personRec("", "C", nil, nil, nil, nil), nil) },
+			Apply: func(m explore.Model) []string { return []string{"invalid"} }},
+		{Name: "update@mgr(<nil entity>)",
+			Do:    func(ctx boltz.MutateContext) error { var r *world.Rec; return k.mgr.Update(ctx, r, nil) },
+			Apply: func(m explore.Model) []string { return []string{"invalid"} }},
 		{Name: "people.rc.SetLinkCount(#p1,#l1,2)",
 			Do: func(ctx boltz.MutateContext) error {
 				_, _, err := k.rp.SetLinkCount(ctx.Tx(), []byte("#p1"), []byte("#l1"), 2)
